@@ -243,7 +243,7 @@ func maskLossy(fd *descriptorpb.FileDescriptorProto) {
 // and for every syntax.
 func derivedNameShapes() []string {
 	names := []string{"foo_bar", "fooBar", "FooBar", "foo_Bar", "foobar", "foo__bar", "_foo_bar", "Foo_bar"}
-	kinds := []string{"scalar", "repeated", "map", "message", "group", "oneof-member", "nested-message", "nested-enum"}
+	kinds := []string{"scalar", "repeated", "map", "message", "group", "oneof-member", "map-json", "scalar-json", "nested-message", "nested-enum"}
 	var out []string
 	for _, syn := range []string{"proto2", "proto3", "editions"} {
 		head := "syntax = \"" + syn + "\";\n"
@@ -263,6 +263,10 @@ func derivedNameShapes() []string {
 				return fmt.Sprintf("  repeated int32 %s = %d;\n", name, num)
 			case "map":
 				return fmt.Sprintf("  map<string, string> %s = %d;\n", name, num)
+			case "map-json":
+				return fmt.Sprintf("  map<string, int32> %s = %d [json_name = \"j%d\"];\n", name, num, num)
+			case "scalar-json":
+				return fmt.Sprintf("  %sint32 %s = %d [json_name = \"j%d\"];\n", opt, name, num, num)
 			case "message":
 				return fmt.Sprintf("  %sOther %s = %d;\n", opt, name, num)
 			case "group":
@@ -284,14 +288,14 @@ func derivedNameShapes() []string {
 			return ""
 		}
 		for _, k1 := range kinds {
-			for _, k2 := range kinds[:6] {
+			for _, k2 := range kinds[:8] {
 				for _, n1 := range names {
 					for _, n2 := range names {
 						if n1 == n2 {
 							continue
 						}
 						d1, d2 := decl(k1, n1, 1), decl(k2, n2, 2)
-						if d1 == "" || d2 == "" || (k1 != "map" && k2 != "map" && k1 != "group" && k2 != "group") {
+						if d1 == "" || d2 == "" || (!strings.HasPrefix(k1, "map") && !strings.HasPrefix(k2, "map") && k1 != "group" && k2 != "group") {
 							continue
 						}
 						out = append(out, head+"package x;\nmessage Other {}\nmessage M {\n"+d1+d2+"}\n")
